@@ -15,9 +15,11 @@ Conventions
   with hashes at the threshold and at +-1.
 * an empty `ident` is `None`/`""` (`if not ident`), an empty lineage is `None`/`()`
   (`if lineage:`).
-* `loaded = true` marks a database returned by `load` from JSON: its
-  `_hashval_to_idx` is a plain dict of lists, on which `insert` fails as soon as the
-  sketch has a hash (`KeyError` / `AttributeError`) — after having allocated the idx.
+* a database returned by `load` from JSON is an ordinary database again (its
+  `_hashval_to_idx` is a `defaultdict(set)` of sets): it accepts further insertions.
+  The idx lists read from JSON become Python sets; their iteration order is a CPython
+  artefact, so — as for every set — the model keeps first-insertion order and the
+  protocol sorts what comes out of them on both sides.
 -/
 import SmVerif.Model.Lineage
 import SmVerif.Model.Scaled
@@ -68,13 +70,12 @@ structure Db where
   lineageToLid : List (Lineage × Nat)
   lidToLineage : List (Nat × Lineage)
   hashvalToIdx : List (Nat × List Nat)
-  loaded : Bool
 deriving Repr, DecidableEq, Inhabited
 
 /-- `LCA_Database(ksize, scaled, moltype)` -/
 def Db.new (ksize scaled moltype : Nat) : Db :=
   { ksize, scaled, moltype, nextIndex := 0, nextLid := 0, identToName := [], identToIdx := [],
-    idxToLid := [], lineageToLid := [], lidToLineage := [], hashvalToIdx := [], loaded := false }
+    idxToLid := [], lineageToLid := [], lidToLineage := [], hashvalToIdx := [] }
 
 /-- `__len__` -/
 def Db.len (db : Db) : Nat := db.nextIndex
@@ -120,12 +121,7 @@ def Db.insert (db : Db) (sig : Sig) (ident : String) (lineage : Lineage) : Db ×
             let (db, lid) := db.getLineageId lineage
             { db with idxToLid := set db.idxToLid idx lid }
           else db
-        if db.loaded then
-          match kept with
-          | [] => (db, .ok 0)
-          | h :: _ => (db, .error (if contains db.hashvalToIdx h then .attribute else .key))
-        else
-          ({ db with hashvalToIdx := addHashes db.hashvalToIdx idx kept }, .ok kept.length)
+        ({ db with hashvalToIdx := addHashes db.hashvalToIdx idx kept }, .ok kept.length)
 
 /-- `self._hashval_to_idx.get(hashval, [])` -/
 def Db.idxsOf (db : Db) (h : Nat) : List Nat := (get? db.hashvalToIdx h).getD []
@@ -168,8 +164,7 @@ def downKeep (S k : Nat) : Bool :=
 def Db.downsampleScaled (db : Db) (S : Nat) : Except Err Db :=
   if S = db.scaled then .ok db
   else if S < db.scaled then .error .value
-  else .ok { db with hashvalToIdx := db.hashvalToIdx.filter (fun p => downKeep S p.1), scaled := S,
-                     loaded := false }
+  else .ok { db with hashvalToIdx := db.hashvalToIdx.filter (fun p => downKeep S p.1), scaled := S }
 
 /-! ### `_signatures` -/
 
@@ -228,8 +223,7 @@ def Db.jsonRoundTrip (db : Db) : Db :=
     identToIdx := db.identToIdx,
     idxToLid := db.idxToLid,
     nextIndex := nextAfter (vals db.identToIdx),
-    nextLid := nextAfter (vals db.idxToLid),
-    loaded := true }
+    nextLid := nextAfter (vals db.idxToLid) }
 
 /-! ### gather / summarize / classify over a list of databases -/
 
@@ -334,11 +328,11 @@ def SqlDb.getLineageAssignments (s : SqlDb) (h : Nat) (minNum : Nat := 0) : Exce
       | some lin => .ok (x ++ [lin])
       | none => .error .key) []
 
-/-- `get_identifiers_for_hashval`: `KeyError` for a hash nobody holds; an idx without
-    ident yields the `defaultdict`'s `set()`, modelled as `none` -/
+/-- `get_identifiers_for_hashval` (`hashval_to_idx.get(hashval, [])`: nothing for a hash nobody
+    holds); an idx without ident yields the `defaultdict`'s `set()`, modelled as `none` -/
 def SqlDb.getIdentifiers (s : SqlDb) (h : Nat) : Except Err (List (Option String)) :=
   let idxs := s.idxsOf h
-  if idxs.isEmpty then .error .key
+  if idxs.isEmpty then .ok []
   else
     let inv := s.identToIdx.foldlM (fun (d : List (Nat × String)) (p : String × Nat) =>
       if contains d p.2 then (.error .assertion : Except Err _) else .ok (set d p.2 p.1)) []
@@ -346,11 +340,14 @@ def SqlDb.getIdentifiers (s : SqlDb) (h : Nat) : Except Err (List (Option String
     | .error e => .error e
     | .ok m => .ok (idxs.map (fun idx => get? m idx))
 
-/-- `hashvals`: the raw `SELECT DISTINCT hashval` column (values above `MAX_SQLITE_INT`
-    come back as the signed integers they were stored as) -/
-def SqlDb.hashvals (s : SqlDb) : List Int :=
+/-- what SQLite stores for a hash (`convert_hash_to`) and what comes back (`convert_hash_from`) -/
+def convertHashTo (h : Nat) : Int := if h > MAX_SQLITE_INT then (h : Int) - (2 ^ 64 : Int) else (h : Int)
+def convertHashFrom (x : Int) : Nat := if x < 0 then (x + (2 ^ 64 : Int)).toNat else x.toNat
+
+/-- `hashvals`: `SELECT DISTINCT hashval`, each value through `convert_hash_from` -/
+def SqlDb.hashvals (s : SqlDb) : List Nat :=
   let all := s.rows.foldl (fun acc r => updateSet acc r.2.2) ([] : List Nat)
-  all.map (fun h => if h > MAX_SQLITE_INT then (h : Int) - (2 ^ 64 : Int) else (h : Int))
+  all.map (fun h => convertHashFrom (convertHashTo h))
 
 /-- `downsample_scaled`: only the attribute changes -/
 def SqlDb.downsampleScaled (s : SqlDb) (S : Nat) : Except Err SqlDb :=
